@@ -284,7 +284,7 @@ func runApproval(topo *Topo, c ApprovalCfg) ApprovalLine {
 		}
 		if strings.HasPrefix(name, "t:") {
 			if c.Late[strings.TrimPrefix(name, "t:")] {
-				sched.WaitArrive(name, 500*time.Millisecond) // the timeout elapses now, in real time
+				sched.WaitArrive(name, 2*time.Second) // the timeout elapses now, in real time
 			}
 			finishTimer()
 			before := runtime.NumGoroutine()
